@@ -392,12 +392,18 @@ def ExtOk (n : String) (body : List Ev) : Prop := ∀ e ∈ body, (∀ a, e ≠ 
 /-- the local names `read_workbook` interprets on a start tag -/
 def xlsxInterpreted : List String := ["extLst", "sheet", "workbookPr", "definedName"]
 
+/-- the local names whose start tag always has an effect -/
+def xlsxAlwaysInterpreted : List String := ["extLst", "sheet", "definedName"]
+
 /-- events the workbook loop must skip: start tags of any element whose local name is not interpreted (whatever its
     namespace prefix and attributes: `fileVersion`, `bookViews`, `workbookView`, `calcPr`, `mc:AlternateContent`,
-    `externalReferences`, `pivotCaches`, …), end tags other than the workbook's, text, comments, processing instructions -/
+    `externalReferences`, `pivotCaches`, …) — and start tags with local name `workbookPr` that carry no `date1904`
+    attribute (a foreign twin such as `<x15:workbookPr chartTrackingRefBase="1"/>` inside `mc:AlternateContent`,
+    before or after the real element: after fix 4dbff9e it leaves the date system alone) —, end tags other than the
+    workbook's, text, comments, processing instructions -/
 def InertX (evs : List Ev) : Prop :=
   ∀ e ∈ evs, match e with
-    | .start n _ => localName n ∉ xlsxInterpreted
+    | .start n a => localName n ∉ xlsxAlwaysInterpreted ∧ (localName n = "workbookPr" → a.lookup "date1904" = none)
     | .end_ n => localName n ≠ "workbook"
     | _ => True
 
